@@ -203,7 +203,7 @@ func (fr *Frame) execInstr(ins ssa.Instruction, st *State) {
 		ref := fr.allocFresh(st, et, Term{})
 		key := r.eng.heapKeyArr(et)
 		es := u.sortOf(et)
-		r.heapSet(st, key, store(r.heapGet(st, key), ref, Term{fmt.Sprintf("((as const %s) %s)", arraySort("Int", es), literalize(u.zeroOf(et).S)), arraySort("Int", es)}))
+		r.heapSet(st, key, store(r.heapGet(st, key), ref, u.constArray("Int", es, u.zeroOf(et))))
 		fr.set(x, app("Slice", "mk_slice", ref, intLit(0), ln, cp))
 		r.recordSliceArr(fr.vals[x], ref)
 	case *ssa.Slice:
